@@ -178,7 +178,7 @@ Proof. exact fixpoint_partial. Qed.
 Print Assumptions c09_fixpoint_partial.
 
 (* the fixpoint against the RESOLVER MODEL (Model/Resolver.v = repo.go +
-   filterPackages; resolve U W dq0 scheds as in Properties/C02.v), inside the
+   filterPackages; resolve U W dq0 as in Properties/C02.v), inside the
    envelope of c02_closed_partial (Spec.ResolveSpec.envelope_b), for members
    whose names and versions survive the lock's  name=version  text (lockable).
    The three hypotheses of c09_fixpoint_partial, for that model:
@@ -197,12 +197,12 @@ Print Assumptions c09_fixpoint_partial.
    lock_world = lock_of of the members is one): L is again inside the envelope;
    envelope hypothesis (ii) of c09_fixpoint_partial ("nothing else in U is
    admitted by a member's entry") holds by itself (one provider per name);
-   WHENEVER L resolves — for every schedule — it resolves to exactly the
-   members it was derived from; and under the three extra hypotheses it DOES
-   resolve, for every schedule.
+   WHENEVER L resolves it resolves to exactly the members it was derived from;
+   and under the three extra hypotheses it DOES resolve.  (The resolver model
+   has no install_if schedule parameter any more, fix c03e0c0.)
    PARTIAL: only inside the envelope and under those hypotheses. *)
-Theorem c09_fixpoint_resolver_partial : forall (U : Resolver.universe) W dq0 scheds S,
-  ResolveSpec.envelope_b U W = true -> Resolver.resolve U W dq0 scheds = Ok S ->
+Theorem c09_fixpoint_resolver_partial : forall (U : Resolver.universe) W dq0 S,
+  ResolveSpec.envelope_b U W = true -> Resolver.resolve U W dq0 = Ok S ->
   (forall j, In j S -> LockFixpointResolver.lockable (nth j U Resolver.dummy_pkg)) ->
   ResolveSpec.Closed U W (ResolveTheorems.pkgs_of U S) /\
   LockFixpointResolver.lock_world U dq0 S = lock_of (List.map (LockFixpointResolver.cand_at U dq0) S) /\
@@ -211,12 +211,12 @@ Theorem c09_fixpoint_resolver_partial : forall (U : Resolver.universe) W dq0 sch
      k' = LockFixpointResolver.cand_at U dq0 j) /\
   (forall L, LockFixpointSuccess.lists_lock_entries U dq0 S L ->
      ResolveSpec.envelope_b U L = true /\
-     forall scheds' S', Resolver.resolve U L dq0 scheds' = Ok S' -> forall j, In j S' <-> In j S) /\
+     forall S', Resolver.resolve U L dq0 = Ok S' -> forall j, In j S' <-> In j S) /\
   ((forall j, In j S -> admitted (LockFixpointResolver.lock_universe U dq0)
                                  (lock_entry_of (LockFixpointResolver.cand_at U dq0 j)) (LockFixpointResolver.cand_at U dq0 j)) ->
    LockFixpointSuccess.no_member_excluded U S -> LockFixpointSuccess.deps_wellformed U S ->
    forall L, LockFixpointSuccess.lists_lock_entries U dq0 S L ->
-   forall scheds', exists S', Resolver.resolve U L dq0 scheds' = Ok S' /\ forall j, In j S' <-> In j S).
+   exists S', Resolver.resolve U L dq0 = Ok S' /\ forall j, In j S' <-> In j S).
 Proof. exact LockFixpointSuccess.fixpoint_resolver_lemma. Qed.
 Print Assumptions c09_fixpoint_resolver_partial.
 
@@ -224,22 +224,20 @@ Print Assumptions c09_fixpoint_resolver_partial.
    by the corpora of the c02 and c09 harnesses): a -> b, c; c -> !b; world [a].
    The conflict entry of c is applied when c is expanded, after b was chosen
    for a: the result [b c a] is closed, every member answers its own entry
-   (hypothesis (i) of c09_fixpoint_partial), and its lock fails to resolve, for
-   every schedule, in the order of the result [b=1.0 c=1.0 a=1.0], in sorted
+   (hypothesis (i) of c09_fixpoint_partial), and its lock fails to resolve in the order of the result [b=1.0 c=1.0 a=1.0], in sorted
    order [a=1.0 b=1.0 c=1.0] (what lock.go writes) and in five of the six
    orders of its entries (only [b a c] replays the origin). *)
 Theorem c09_fixpoint_resolver_refuted :
   let U := LockFixpointResolver.U_conflict in let W := ["a"] in let S := [1; 2; 0]%nat in
-  ResolveSpec.envelope_b U W = true /\ Resolver.resolve U W [] [] = Ok S /\
+  ResolveSpec.envelope_b U W = true /\ Resolver.resolve U W [] = Ok S /\
   ResolveSpec.Closed U W (ResolveTheorems.pkgs_of U S) /\
   (forall j, In j S -> LockFixpointResolver.lockable (nth j U Resolver.dummy_pkg)) /\
   (forall j, In j S -> admitted (LockFixpointResolver.lock_universe U [])
                                 (lock_entry_of (LockFixpointResolver.cand_at U [] j)) (LockFixpointResolver.cand_at U [] j)) /\
   LockFixpointResolver.lock_world U [] S = ["b=1.0"; "c=1.0"; "a=1.0"] /\
-  forall scheds,
-    Resolver.resolve U (LockFixpointResolver.lock_world U [] S) [] scheds = Err /\
-    Resolver.resolve U ["a=1.0"; "b=1.0"; "c=1.0"] [] scheds = Err /\
-    List.map (fun L => Resolver.resolve U L [] scheds) (LockFixpointResolver.all_orders (LockFixpointResolver.lock_world U [] S))
+    Resolver.resolve U (LockFixpointResolver.lock_world U [] S) [] = Err /\
+    Resolver.resolve U ["a=1.0"; "b=1.0"; "c=1.0"] [] = Err /\
+    List.map (fun L => Resolver.resolve U L []) (LockFixpointResolver.all_orders (LockFixpointResolver.lock_world U [] S))
       = [Err; Err; Err; Ok S; Err; Err].
 Proof. exact LockFixpointResolver.fixpoint_finds_locked_refuted. Qed.
 Print Assumptions c09_fixpoint_resolver_refuted.
@@ -283,13 +281,13 @@ Proof. split; vm_compute; repeat split; discriminate. Qed.
    satisfiable: a -> b>0.5, v, !zz; b provides v=2; world [a v]; the lock [b=1.0 a=1.0] resolves to [b a] *)
 Example c09_fixpoint_resolver_example :
   let U := LockFixpointSuccess.U_example in
-  ResolveSpec.envelope_b U ["a"; "v"] = true /\ Resolver.resolve U ["a"; "v"] [] [] = Ok [1; 0]%nat /\
+  ResolveSpec.envelope_b U ["a"; "v"] = true /\ Resolver.resolve U ["a"; "v"] [] = Ok [1; 0]%nat /\
   (forall j, In j [1; 0]%nat -> LockFixpointResolver.lockable (nth j U Resolver.dummy_pkg)) /\
   (forall j, In j [1; 0]%nat -> admitted (LockFixpointResolver.lock_universe U [])
        (lock_entry_of (LockFixpointResolver.cand_at U [] j)) (LockFixpointResolver.cand_at U [] j)) /\
   LockFixpointSuccess.no_member_excluded U [1; 0]%nat /\ LockFixpointSuccess.deps_wellformed U [1; 0]%nat /\
   LockFixpointResolver.lock_world U [] [1; 0]%nat = ["b=1.0"; "a=1.0"] /\
-  Resolver.resolve U ["b=1.0"; "a=1.0"] [] [] = Ok [1; 0]%nat.
+  Resolver.resolve U ["b=1.0"; "a=1.0"] [] = Ok [1; 0]%nat.
 Proof. exact LockFixpointSuccess.fixpoint_example. Qed.
 
 (* the hypotheses of c09_fixpoint_partial are consistent, on a one-package universe *)
